@@ -6,7 +6,8 @@
    The model describes the REPAIRED code: 8880f0d (setup resets `done`; the worker of an attempt tears down exactly
    once, through a worker-local closure, and BEFORE it hands the node back for a retry - no stale teardown can reach
    the next attempt's files) and f5eca82 (the output is captured into an in-memory buffer, a member of the
-   MultiWriter, instead of an os.Pipe that nobody drains while the command runs).
+   MultiWriter, instead of an os.Pipe that nobody drains while the command runs) and 78722d0 (the `stdout:` writer is
+   a best-effort member of the MultiWriter: a write error of the redirect does not end the copy).
    Library semantics reproduced (DESIGN.md Appendix B): bufio.Writer (4096 bytes) Write / Flush / ReadFrom,
    io.MultiWriter, io.Copy into a non-file writer, exec.Cmd sharing one pipe when Stdout == Stderr, bytes.Buffer.
 
@@ -33,7 +34,9 @@ Definition P_STDOUT := 0.
 Definition P_STDERR := 1.
 Definition p_log (k : nat) := 2 + k.
 
-Inductive leaf := LBuf (b : nat) | LCap.        (* a bufio writer, or the capture buffer of `output:` *)
+(* a bufio writer; a bufio writer wrapped as bestEffortWriter (78722d0: its write errors do not stop the copy);
+   the capture buffer of `output:` *)
+Inductive leaf := LBuf (b : nat) | LBest (b : nat) | LCap.
 (* what exec.Cmd copies a stream into: a lone bufio.Writer (io.Copy finds ReadFrom) or a MultiWriter *)
 Inductive wire := WDirect (b : nat) | WMulti (l : list leaf).
 
@@ -155,6 +158,7 @@ Fixpoint write_leaves (s : st) (l : list leaf) (p : bytes) : st * bool :=
   match l with
   | [] => (s, true)
   | LBuf b :: r => let '(s1, ok) := bw_write s b p in if ok then write_leaves s1 r p else (s1, false)
+  | LBest b :: r => write_leaves (fst (bw_write s b p)) r p
   | LCap :: r => write_leaves (set_exec s (w_out s) (w_err s) (shared s) (capbuf s ++ p) (brk_o s) (brk_e s)) r p
   end.
 
@@ -200,7 +204,7 @@ Definition wire_out (c : cfg) (n : node) : wire :=
   match n_logW n with
   | None => WMulti []
   | Some lw =>
-      let base := match n_outW n with Some ow => [LBuf lw; LBuf ow] | None => [LBuf lw] end in
+      let base := match n_outW n with Some ow => [LBuf lw; LBest ow] | None => [LBuf lw] end in
       if c_output c then WMulti (base ++ [LCap])
       else match n_outW n with Some _ => WMulti base | None => WDirect lw end
   end.
